@@ -47,7 +47,7 @@ TIERS = {
 
 FAULT_KINDS = ["illtyped_construct", "illtyped_subst", "unsupported", "undefined_symbol", "bad_smtlib", "bad_hr",
                "unsupported_command", "redefine_symbol", "stream_eio", "solver_convert", "solver_unknown",
-               "script_strict", "parse_declares", "bad_interpretation", "arith_error_subst", "sl_error"]
+               "script_strict", "parse_declares", "bad_interpretation", "arith_error_subst", "sl_error", "bad_size_measure"]
 SERVICES = ["simplify", "substitute", "free_vars", "atoms", "theory", "types", "size", "serialize", "to_smtlib",
             "nnf", "cnf", "aig", "prenex", "is_qf", "logic", "model_value"]
 
@@ -80,6 +80,11 @@ def script_text(tape, term, symbols, with_define=True):
         lines.append("(assert %s)" % bp.to_smtlib(term))
     lines.append("(check-sat)")
     return "\n".join(lines) + "\n"
+
+
+MALFORMED_DECLS = ["(declare-fun zz_m () Int Real)\n", "(declare-fun zz_m () Bool", "(declare-const zz_m Int Int)\n",
+                   "(declare-const zz_m Int", "(define-fun zz_m () Int 3 4)\n", "(declare-fun zz_m (Int) Bool Bool)\n",
+                   "(declare-fun zz_m () (Array Int))\n", "(declare-fun zz_m () Int\n(check-sat)\n"]
 
 
 def corrupt(tape, text):
@@ -211,8 +216,14 @@ def gen_plan(tape, cfg):
                     o["text"] = "\n".join(lines[:pos] + [cmd] + lines[pos:])
                     o["also_serialize"] = tape.chance(1, 2, "unsup.serialize")
                 else:
-                    o["text"] = "(declare-fun zz_new () Int)\n(declare-fun zz_new2 () Bool)\n(assert (> zz_new 0))\n(assert (zz_new2 3))\n"
-                    o["probe"] = tape.choice(["zz_new", "zz_new2"], "parse_declares.probe")
+                    if tape.chance(1, 2, "parse_declares.malformed"):
+                        # the declaration itself is malformed (or cut short): nothing of it may survive
+                        o["text"] = tape.choice(MALFORMED_DECLS, "parse_declares.text")
+                        o["probe"] = "zz_m"
+                        o["malformed_decl"] = True
+                    else:
+                        o["text"] = "(declare-fun zz_new () Int)\n(declare-fun zz_new2 () Bool)\n(assert (> zz_new 0))\n(assert (zz_new2 3))\n"
+                        o["probe"] = tape.choice(["zz_new", "zz_new2"], "parse_declares.probe")
             elif kind == "bad_hr":
                 o["text"] = tape.choice(["(a & ", "a & & b", "x + * 3", "(a | b))", "3 <", "a ? b", "!(", "a @ b"], "bad_hr")
             elif kind == "redefine_symbol":
@@ -221,7 +232,7 @@ def gen_plan(tape, cfg):
                 o["name"] = n
                 o["sort"] = bp.INT if bp.sort_key(s) != bp.INT else bp.BOOL
             elif kind in ("solver_convert", "solver_unknown"):
-                o["q"] = tape.choice(["is_sat", "is_valid", "is_unsat"], "solver.q")
+                o["q"] = tape.choice(["is_sat", "is_valid", "is_unsat"] + (["add_assertion"] if kind == "solver_convert" else []), "solver.q")
                 o["f"] = bp.gen_term(tape, bp.BOOL, 2, sctx)
             elif kind == "bad_interpretation":
                 o["fun"] = tape.choice(["f", "g", "P"], "badinterp.fun")
@@ -231,9 +242,11 @@ def gen_plan(tape, cfg):
                 o["via"] = tape.choice(["direct", "is_sat", "is_valid"], "sl_error.via")
                 o["f"] = bp.gen_term(tape, bp.BOOL, 2, sctx)
                 o["newsym"] = "nz%d" % tape.draw(3, "sl_error.sym")
+            elif kind == "bad_size_measure":
+                o["measure"] = tape.choice([6, 9, -1, 99], "badmeasure")
             ops.append(o)
             if o["kind"] in ("illtyped_construct", "illtyped_subst", "unsupported", "redefine_symbol",
-                             "undefined_symbol", "bad_hr") and tape.chance(2, 3, "retry?"):
+                             "undefined_symbol", "bad_hr", "bad_size_measure") and tape.chance(2, 3, "retry?"):
                 pending_retry.append(dict(o, op="both_fault"))
             if o["kind"] == "undefined_symbol" and o.get("via") == "hr":
                 # later the name gets declared (on both twins) and is parsed again by the same parser
@@ -413,7 +426,8 @@ def execute(plan, tape):
     def same(label, ra, rb, term=None, what=""):
         """compare the twin outcomes of one call"""
         if ra[0] == "exc" and rb[0] == "ok" and ra[1] == "PysmtTypeError" and "parser" in state["obj_failed"] \
-                and len(ra) > 2 and ra[2].startswith("Trying to redefine symbol"):
+                and len(ra) > 2 and ra[2].startswith("Trying to redefine symbol") \
+                and _declared_by_wellformed_command(ra[2], state.get("failed_texts", [])):
             # F14 seen through another call: a (corrupted) script declared the symbol with
             # another type before it failed to parse, and the declaration survived
             raise Violation("C15:failed-parse:declared-symbol-survives",
@@ -594,9 +608,18 @@ def execute(plan, tape):
                         return ["verdict", s.solve()]
                     elif k == "is_sat":
                         return ["verdict", s.is_sat(bp.build(o["f"], side.env))]
-                    return ["state", list(s.assertions), s.b_depth(), list(s.b_live())]
+                    st = ["state", list(s.assertions), s.b_depth(), list(s.b_live())]
+                    if not state.get("status_tainted"):
+                        # last_command / last_result decide whether get_model / get_unsat_core are
+                        # allowed.  A failing is_sat()/is_valid() legitimately pushed, solved and
+                        # popped before it failed, so they are compared only while every failure
+                        # so far was a refused add_assertion (which must change neither).
+                        st += [str(s.last_command), str(s.last_result)]
+                    return st
                 ra, rb = on(A, lambda: do(A)), on(B, lambda: do(B))
                 same("solver." + o["sop"], ra, rb, None, bp.pretty(o["f"]) if "f" in o else "")
+                if o["sop"] in ("solve", "is_sat") and ra[0] == "ok":
+                    state["status_tainted"] = False
                 if "solver" in state["obj_failed"]:
                     state["nontrivial"] = True
                     probe("solver_used_after_failed_query")
@@ -641,8 +664,13 @@ def execute(plan, tape):
                     if fk in ("bad_smtlib", "stream_eio", "unsupported_command", "parse_declares") or \
                             (fk == "undefined_symbol" and o.get("via") == "smtlib"):
                         state["obj_failed"].add("parser")
+                        state.setdefault("failed_texts", []).append(o.get("text", "")[:o["limit"]] if "limit" in o else o.get("text", ""))
                     if fk in ("solver_convert", "solver_unknown"):
                         state["obj_failed"].add("solver")
+                        if o.get("q") != "add_assertion":
+                            state["status_tainted"] = True
+                        else:
+                            probe("add_assertion_refused")
                     if fk == "sl_error":
                         state["obj_failed"].add("sl")
                     if fk == "script_strict":
@@ -653,6 +681,10 @@ def execute(plan, tape):
                         want_other = (lambda side: side.env.formula_manager.Symbol(
                             name, bp.to_pysmt_type(bp.REAL, side.env)))
                         pa, pb = on(A, lambda: want_other(A)), on(B, lambda: want_other(B))
+                        if pa[0] != pb[0] and o.get("malformed_decl"):
+                            raise Violation("C15:failed-parse:malformed-declaration-took-effect",
+                                            "after the malformed declaration %r was refused, Symbol(%r, REAL) %s in A but %s in the twin" %
+                                            (o["text"], name, _short(pa), _short(pb)))
                         if pa[0] != pb[0]:
                             raise Violation("C15:failed-parse:declared-symbol-survives",
                                             "after a script declaring %s failed to parse, Symbol(%r, REAL) %s in A but %s in the twin" %
@@ -676,6 +708,36 @@ def execute(plan, tape):
     return {"digest": digest_of(trace), "nontrivial": state["nontrivial"] and bool(faults), "probes": probes,
             "faults": faults, "sim_time": 0.0, "steps": len(plan["ops"]),
             "sample": {"ops": describe(plan)[len(pool):][:40], "pool": describe(plan)[:len(pool)]}}
+
+
+def _declared_by_wellformed_command(msg, texts):
+    """F14 is: a symbol declared by a COMPLETE, well-formed declaration of a script whose parsing
+    failed later.  A symbol that was left behind by the malformed command itself is something else."""
+    import re
+    from dsim.sexpr import Reader, SexprError, Sym
+    m = re.search(r"redefine symbol '([^']*)'", msg)
+    if not m:
+        return True
+    name = m.group(1)
+    for text in texts:
+        r = Reader()
+        r.feed(text + "\n")
+        while True:
+            try:
+                nx = r.next()
+            except SexprError:
+                break
+            if nx is None:
+                break
+            sx = nx[0]
+            if isinstance(sx, list) and len(sx) >= 3 and isinstance(sx[0], Sym) and isinstance(sx[1], Sym) and sx[1].name == name:
+                if sx[0].name == "declare-fun" and len(sx) == 4 and isinstance(sx[2], list):
+                    return True
+                if sx[0].name == "declare-const" and len(sx) == 3:
+                    return True
+                if sx[0].name == "define-fun" and len(sx) == 5:
+                    return True
+    return False
 
 
 def _safe_str(x):
@@ -827,6 +889,8 @@ def _fault_fn(o, term, symbols, user, side, tape):
                 return sc.get_strict_formula(mgr)
             return sc.get_strict_formula(mgr)
         return fn, None
+    if fk == "bad_size_measure":
+        return (lambda: bp.build(term, env).size(o["measure"])), None
     if fk == "bad_interpretation":
         def fn():
             from pysmt.substituter import FunctionInterpretation
